@@ -27,9 +27,10 @@ MANGLED = {"f": ["f_1abc", "f_9", "and_", "foo_0", "a_b", "at_"], "o": ["o_1abc"
 PLAIN_LIKE = ["a_b", "b_c", "ab", "abc", "a_b_c", "x1", "x10", "x1_0"]
 
 
-def adversarial_names(lang="pddl", p=0.6):
+def adversarial_names(lang="pddl", p=0.6, p_symbols=0.2):
     """A `names` callable for vk.gen.problem profiles."""
     kws = PDDL_KW if lang == "pddl" else ANML_KW
+    lo = 0.58 + p_symbols
 
     def nm(rng, kind, i):
         if rng.random() > p:
@@ -41,7 +42,7 @@ def adversarial_names(lang="pddl", p=0.6):
             return rng.choice(CASE_TRAPS)
         if x < 0.58:
             return rng.choice(DIGITS)
-        if x < 0.78:
+        if x < lo:
             return rng.choice(SYMBOLS)
         if x < 0.9:
             return rng.choice(MANGLED.get(kind, MANGLED["f"]))
@@ -550,6 +551,29 @@ def gen_pddl_case(rng):
     return rec, {"variant": variant, "rewrite": rewrite, "adversarial": adversarial, "features": feats, "durative": has_dur, "empty_pre": empty_pre}
 
 
+def anml_friendly_bounds(rec):
+    """The ANML reader's grammar only accepts non-negative integer literals / decimal literals as type bounds (known
+    limitation): most cases use such bounds, the rest keep negative / fractional / half-open ones."""
+    r = copy.deepcopy(rec)
+    shift = {}
+    for f in r["fluents"]:
+        t = f["type"]
+        if t != "bool" and t[0] == "int" and t[1] is not None and t[1] < 0:
+            shift[f["name"]] = -t[1]
+            f["type"] = ["int", 0, None if t[2] is None else t[2] - t[1]]
+        elif t != "bool" and t[0] == "int" and t[1] is None and t[2] is not None and t[2] < 0:
+            f["type"] = ["int", None, 0]
+        elif t != "bool" and t[0] == "real" and (t[1] is not None or t[2] is not None):
+            f["type"] = ["real", "0", "4"]
+    if shift:
+        # keep initial values / defaults inside the shifted bounds
+        for f in r["fluents"]:
+            if f["name"] in shift and f.get("default") is not None and f["default"][0] == "i":
+                f["default"] = ["i", int(f["default"][1]) + shift[f["name"]]]
+        r["init"] = [[fe, (["i", int(v[1]) + shift[fe[1]]] if fe[1] in shift and v[0] == "i" else v)] for fe, v in r["init"]]
+    return r
+
+
 ANML_BASE = dict(
     interpreted_functions=0.0,
     int_params=0.0,
@@ -565,11 +589,14 @@ def gen_anml_case(rng):
     prof = dict(ANML_BASE)
     adversarial = rng.random() < 0.65
     if adversarial:
-        prof["names"] = adversarial_names("anml")
+        # names that start with a letter and contain a symbol are not mangled by the ANML writer (known defect): keep them rare
+        prof["names"] = adversarial_names("anml", p_symbols=0.03 if rng.random() < 0.85 else 0.2)
     if variant == "temporal":
         prof["max_actions"] = 2
     rec, feats = gen_problem(rng, prof)
     rec = nonconstant_goals(rng, rec)
+    if rng.random() < 0.8:
+        rec = anml_friendly_bounds(rec)
     has_dur = False
     if variant == "temporal":
         rec, has_dur = durativize(rng, rec, "anml", ice=0.3)
